@@ -14,6 +14,8 @@ theorem verdict : (classify Generated.factsC01).Sound (Holds (cfgOf Generated.fa
 #print axioms Hv.Storage.decodeFileHeader_encode
 #print axioms Hv.Storage.readAll_render
 #print axioms Hv.Storage.loadIndex_render
+#print axioms Hv.Storage.walkEnd_renderBlocks
+#print axioms Hv.Storage.openExisting_ok
 #print axioms Hv.Storage.runOps_inv
 #print axioms Hv.Storage.loadIndex_runOps
 #print axioms Hv.Storage.find_specOf
